@@ -1612,8 +1612,8 @@ func (g *gx) restore(s gsnap) {
 	g.defers = append([][]ast.Stmt{}, s.defers...)
 }
 
-// hasJump: the statements cannot be translated as a value-returning block (they leave it, loop, or register a defer).
-func hasJump(list []ast.Stmt) bool {
+// dgHasJump: the statements cannot be translated as a value-returning block (they leave it, loop, or register a defer).
+func dgHasJump(list []ast.Stmt) bool {
 	found := false
 	for _, s := range list {
 		ast.Inspect(s, func(n ast.Node) bool {
@@ -1623,7 +1623,7 @@ func hasJump(list []ast.Stmt) bool {
 			case *ast.ReturnStmt, *ast.BranchStmt, *ast.DeferStmt, *ast.ForStmt, *ast.GoStmt, *ast.SelectStmt, *ast.LabeledStmt:
 				found = true
 			case *ast.RangeStmt:
-				if hasJump(x.Body.List) {
+				if dgHasJump(x.Body.List) {
 					found = true
 				}
 				return false
@@ -2055,7 +2055,7 @@ func (g *gx) ifStmt(st *ast.IfStmt, list []ast.Stmt, k func() string) string {
 	}
 	el := elseList(st)
 	after := func() string { return g.stmts(list[1:], k) }
-	if hasJump(st.Body.List) || hasJump(el) {
+	if dgHasJump(st.Body.List) || dgHasJump(el) {
 		saved := g.snapshot()
 		th := g.stmts(st.Body.List, after)
 		g.restore(saved)
@@ -2077,7 +2077,7 @@ func (g *gx) ifStmt(st *ast.IfStmt, list []ast.Stmt, k func() string) string {
 	vars := g.changed(mark, saved.env)
 	g.tlog = g.tlog[:mark]
 	g.ntmp = saved.ntmp
-	done := func() string { return "Done " + gtup(cnames(vars)) }
+	done := func() string { return "Done " + gtup(dgCnames(vars)) }
 	if len(vars) == 0 {
 		done = func() string { return "Done tt" }
 	}
@@ -2090,12 +2090,12 @@ func (g *gx) ifStmt(st *ast.IfStmt, list []ast.Stmt, k func() string) string {
 	}
 	pat := "_"
 	if len(vars) > 0 {
-		pat = gpat(cnames(vars))
+		pat = gpat(dgCnames(vars))
 	}
 	return g.withGuards(gs, "obind (if "+c+" then\n  "+th+"\n  else\n  "+e2+") (fun "+pat+" =>\n  "+after()+")")
 }
 
-func cnames(vs []string) []string {
+func dgCnames(vs []string) []string {
 	var out []string
 	for _, v := range vs {
 		out = append(out, cname(v))
@@ -2237,7 +2237,7 @@ func (g *gx) rangeStmt(st *ast.RangeStmt, list []ast.Stmt, k func() string) stri
 			g.fail(st, "internal: loop variable %s not unique", v)
 		}
 	}
-	if !hasJump(st.Body.List) {
+	if !dgHasJump(st.Body.List) {
 		if key != "" {
 			g.fail(st, "range with an index variable and no jump")
 		}
@@ -2267,15 +2267,15 @@ func (g *gx) rangeStmt(st *ast.RangeStmt, list []ast.Stmt, k func() string) stri
 		sb, sc := g.kBreak, g.kCont
 		g.kBreak, g.kCont = nil, nil
 		g.depth++
-		body := g.stmts(st.Body.List, func() string { return "Done " + gtup(cnames(vars)) })
+		body := g.stmts(st.Body.List, func() string { return "Done " + gtup(dgCnames(vars)) })
 		g.depth--
 		g.kBreak, g.kCont = sb, sc
 		g.restore(saved)
 		for _, v := range vars {
 			g.touch(v)
 		}
-		pat := gpat(cnames(vars))
-		return g.withGuards(gs, "obind (ofold (fun "+pat+" ("+cname(elem)+" : "+et.coq()+") =>\n  "+body+") "+xs+" "+gtup(cnames(vars))+") (fun "+pat+" =>\n  "+g.stmts(list[1:], k)+")")
+		pat := gpat(dgCnames(vars))
+		return g.withGuards(gs, "obind (ofold (fun "+pat+" ("+cname(elem)+" : "+et.coq()+") =>\n  "+body+") "+xs+" "+gtup(dgCnames(vars))+") (fun "+pat+" =>\n  "+g.stmts(list[1:], k)+")")
 	}
 	// a structural Fixpoint; the statements after the loop are its nil case
 	g.nloop++
